@@ -5,7 +5,7 @@ import json, os, shutil, sys
 prop, m, caught = sys.argv[1], sys.argv[2], sys.argv[3]
 needs = " ".join(sys.argv[4:])
 src = "/tmp/wt-%s/MUTANTS/%s" % (prop, m)
-dst = "/verif/seeded/%s-%s" % (prop, m)
+dst = "/verif/seeded/%s-%s" % (prop, os.environ.get("MUTANT_AS", m))   # MUTANT_AS=m3: second-round changes arrive as m1/m2 again
 os.makedirs(dst, exist_ok=True)
 for fn in os.listdir(src):
     p = os.path.join(src, fn)
@@ -14,7 +14,7 @@ for fn in os.listdir(src):
 verify = open(os.path.join(src, "VERIFY.txt")).read().strip().splitlines() if os.path.exists(os.path.join(src, "VERIFY.txt")) else []
 meta = {
     "property": prop,
-    "origin": "independent sub-agent given only the property text and a scratch worktree",
+    "origin": os.environ.get("MUTANT_ORIGIN", "independent sub-agent given only the property text and a scratch worktree"),
     "needs_to_manifest": needs,
     "confirmed_in_scratch_worktree": verify,
     "commands_run": [
